@@ -101,3 +101,31 @@ Qed.
 (* '1e-05' = Sci None true 0 *)
 Lemma old_uai_grammar_rejects_exponent : uai_old_ok (render (Sci None true 0)) = false.
 Proof. reflexivity. Qed.
+
+(* ---------------------------------------------------------------- explicit '+' in the exponent *)
+(* str(numpy.float64) prints every value >= 1e16 as <mantissa>e+NN (Markov-network potentials; probabilities never
+   get there).  [uai_ok] consumes the WHOLE token for both exponent signs (theorem above).  A float token without
+   the explicit plus sign (digits, optional '.' digits, optional e, optional '-', digits) stops after the mantissa of exactly those tokens. *)
+Definition skip_minus (l : list ch) : list ch := match l with Minus :: r => r | _ => l end.
+Definition exp_tail_noplus (l : list ch) : bool :=
+  match l with
+  | [] => true
+  | Ee :: r => let (n, r') := skip_digits (skip_minus r) in negb (n =? 0) && match r' with [] => true | _ => false end
+  | _ => false
+  end.
+Definition uai_noplus_ok (l : list ch) : bool :=
+  let (n, r) := skip_digits l in
+  negb (n =? 0) && exp_tail_noplus (match r with Dot :: r' => snd (skip_digits r') | _ => r end).
+Definition has_plus_exponent (s : shape) : bool := match s with Sci _ false _ => true | _ => false end.
+
+Lemma noplus_grammar_24 :
+  forallb (fun s => Bool.eqb (uai_noplus_ok (render s)) (negb (has_plus_exponent s))) (shapes_upto 24) = true.
+Proof. vm_compute. reflexivity. Qed.
+
+Lemma plus_exponent_upto24 s : shape_within 24 s ->
+  uai_ok (render s) = true /\ uai_noplus_ok (render s) = negb (has_plus_exponent s).
+Proof.
+  intros H. split; [apply (number_grammars_upto24 s H)|].
+  apply shapes_upto_complete in H.
+  pose proof (proj1 (forallb_forall _ _) noplus_grammar_24 s H) as E. now apply Bool.eqb_prop in E.
+Qed.
